@@ -63,6 +63,7 @@ type Invocation struct {
 	RespType int
 	Opts     []int  // option codes of the returned response (top level)
 	RT       string // non-empty: the returned response does not survive serialise + parse (C19)
+	ReqSum   uint64 // digest of the request object the handler received (serialised)
 }
 
 var registered bool
@@ -107,7 +108,7 @@ func observe(p *plugins.Plugin, isBuiltin bool) *plugins.Plugin {
 				return h, err
 			}
 			return func(req, resp *dhcpv4.DHCPv4) (*dhcpv4.DHCPv4, bool) {
-				inv := &Invocation{Plugin: name, Args: strings.Join(args, " "), Builtin: isBuiltin, Index: -1, Lease: -1, ReqPtr: ptrOf(req), InPtr: ptrOf(resp)}
+				inv := &Invocation{Plugin: name, Args: strings.Join(args, " "), Builtin: isBuiltin, Index: -1, Lease: -1, ReqPtr: ptrOf(req), InPtr: ptrOf(resp), ReqSum: sum4(req)}
 				if resp != nil {
 					inv.Trail = trail4(resp)
 				}
@@ -132,7 +133,7 @@ func observe(p *plugins.Plugin, isBuiltin bool) *plugins.Plugin {
 				return h, err
 			}
 			return func(req, resp dhcpv6.DHCPv6) (dhcpv6.DHCPv6, bool) {
-				inv := &Invocation{Plugin: name, Args: strings.Join(args, " "), V6: true, Builtin: isBuiltin, Index: -1, Lease: -1, ReqPtr: ptrOf(req), InPtr: ptrOf(resp)}
+				inv := &Invocation{Plugin: name, Args: strings.Join(args, " "), V6: true, Builtin: isBuiltin, Index: -1, Lease: -1, ReqPtr: ptrOf(req), InPtr: ptrOf(resp), ReqSum: sum6(req)}
 				if resp != nil {
 					inv.Trail = trail6(resp)
 				}
@@ -148,6 +149,22 @@ func observe(p *plugins.Plugin, isBuiltin bool) *plugins.Plugin {
 		}
 	}
 	return q
+}
+
+func sum4(r *dhcpv4.DHCPv4) (h uint64) {
+	defer func() { recover() }()
+	if r == nil {
+		return 0
+	}
+	return hashBytes(r.ToBytes())
+}
+
+func sum6(r dhcpv6.DHCPv6) (h uint64) {
+	defer func() { recover() }()
+	if r == nil {
+		return 0
+	}
+	return hashBytes(r.ToBytes())
 }
 
 // roundTrip4 checks that a response serialises and parses back to the same options.
